@@ -165,4 +165,21 @@ FamilyEndVerdict(fam) ==
   IF EndVerdict(fam["all"]) # <<>> THEN EndVerdict(fam["all"])
   ELSE LET badc == {c \in DOMAIN fam \ {"all"} : fam[c].n >= MinEvents /\ EndVerdict(fam[c]) # <<>>} IN
        IF badc = {} THEN <<>> ELSE LET c == CHOOSE x \in badc : TRUE IN Tag(EndVerdict(fam[c]), c)
+(* ------------------------------------------------------- the key-id draw loop ---- *)
+(* keyset.Manager draws a random 32-bit id and draws AGAIN while the id is unavailable   *)
+(* (in use, or used earlier and deleted).  For a call whose draws were observed: the id   *)
+(* handed out is the LAST value the draw source returned - so it is itself a value of the  *)
+(* uniform source, not something computed from a taken id - and every earlier draw of the  *)
+(* call was unavailable (a usable draw is never discarded).  Deterministic, no statistics.  *)
+DrawRuleOK(drawn, handed, unavailable) ==
+  /\ drawn # <<>> /\ handed = drawn[Len(drawn)]
+  /\ \A i \in 1..(Len(drawn) - 1) : drawn[i] \in unavailable
+DrawVerdict(drawn, handed, unavailable) ==
+  IF drawn = <<>> THEN <<"coverage: no draw observed for a scripted key-id call", handed>>
+  ELSE IF handed # drawn[Len(drawn)]
+    THEN <<"the key id handed out is not the last value drawn from the random source", "id",
+           "handed out " \o handed \o ", last draw " \o drawn[Len(drawn)]>>
+  ELSE IF \E i \in 1..(Len(drawn) - 1) : drawn[i] \notin unavailable
+    THEN <<"an available random draw was discarded by the key-id draw loop", "id", handed>>
+  ELSE <<>>
 ================================================================================
